@@ -299,6 +299,12 @@ def build_fn(item, spec, canary, log):
             body = body.rstrip()[:-1] + "\n" + proof + "\n}"
             continue
         cnt = body.count(anchor)
+        if where == "before_each":
+            # the same ghost text in front of EVERY occurrence (e.g. each `continue;` of a loop body): path-independent proofs only
+            if cnt < 1:
+                raise LostAnchor("%s: hint anchor %r found %d times" % (fn_id, anchor[:60], cnt))
+            body = body.replace(anchor, proof + "\n" + anchor)
+            continue
         if cnt != 1:
             raise LostAnchor("%s: hint anchor %r found %d times" % (fn_id, anchor[:60], cnt))
         if where == "before":
